@@ -325,6 +325,25 @@ func (o *oracleC18) compare(w *World, kind string) {
 
 func (o *oracleC18) AfterStep(w *World, st *Step, msgs []sdk.Msg, res *abci.ResponseDeliverTx) {
 	kind := shortKind(msgs)
+	for _, mm := range msgs {
+		// attempt-level probe: a delete naming an entry the inbox does not hold (whatever the chain answers)
+		if m, ok := mm.(*notiftypes.MsgCreateNotification); ok {
+			for i := range msgs {
+				if msgs[i] == mm && o.preOK[i] && o.blocked[o.preTo[i]+"|"+canonAddr(m.Creator)] {
+					w.Probe("blocked_sender_attempted")
+				}
+			}
+		}
+		if m, ok := mm.(*notiftypes.MsgDeleteNotification); ok {
+			hit := false
+			for _, x := range o.inbox[canonAddr(m.Creator)] {
+				hit = hit || (x.From == canonAddr(m.From) && x.Time == m.Time)
+			}
+			if !hit {
+				w.Probe("delete_of_absent_entry_attempted")
+			}
+		}
+	}
 	if res.Code == 0 {
 		for i, mm := range msgs {
 			switch m := mm.(type) {
@@ -410,7 +429,7 @@ func init() {
 		NewGen:    func() Generator { return &genC18{} },
 		NewOracle: func() Oracle { return &oracleC18{} },
 		Runs:      map[string]int{"quick": 400, "thorough": 10000},
-		Required:  []string{"send_ok", "send_by_name_ok", "delete_ok", "delete_nothing", "block_ok", "blocked_send_rejected"},
+		Required:  []string{"send_ok", "send_by_name_ok", "delete_ok", "delete_of_absent_entry_attempted", "block_ok", "blocked_sender_attempted"},
 		Rule: "online-generated histories of 3-5 accounts sending notifications by address and by name (names registered and transferred so resolution changes), unique contents, several sends per block incl. same sender/recipient/timestamp, deletes by recipients and by others naming foreign entries, block lists by address and name, blocked senders retrying, swarm network faults; " +
 			"non-trivial = at least one notification was delivered; distinct = distinct (message kind, outcome) sequences",
 	})
